@@ -82,9 +82,11 @@ def script_entry(draw, p):
     if kind in ("exc", "res", "copen", "rexh"):
         e["klass"] = draw(klass_st(p.get("p_retryable", 0.7)))
     if kind == "exc" and chance(draw, p.get("etypes", 0.25), "etype"):
-        e["etype"] = draw(st.sampled_from(["TimeoutError", "ConnectionError", "KeyError", "AssertionError", "ValueError", "OSError"]))
+        e["etype"] = draw(st.sampled_from(["TimeoutError", "ConnectionError", "KeyError", "AssertionError", "ValueError", "OSError", "FalsyError", "FalsyError"]))
+    if kind == "exc" and chance(draw, p.get("chains", 0.12), "chain"):
+        e["chain"] = [draw(st.sampled_from(["context", "cause"])), draw(st.sampled_from(["CircuitOpenError", "CircuitOpenError", "AbortRetryError", "KeyError", "TimeoutError"]))]
     if kind in ("res", "ok") and chance(draw, p.get("odd_results", 0.2), "rval"):
-        e["rval"] = draw(st.sampled_from(["none", "falsy", "falsy"]))
+        e["rval"] = draw(st.sampled_from(["none", "falsy", "falsy", "awaitable"]))
     if kind in ("exc", "res") and p.get("classifier_time") and chance(draw, p["classifier_time"], "cdur"):
         e["cdur"] = draw(st.sampled_from([1, 2, 4, 16, 64]))
     if kind in ("exc", "res"):
@@ -121,6 +123,8 @@ def call_spec(draw, p, max_attempts: int):
         c["abort"] = draw(st.integers(0, 3 * max_attempts + 1))
     elif ab and draw(st.booleans()):
         c["poll"] = True  # abort_if installed but never answers True
+    if (c.get("abort") is not None or c.get("poll")) and chance(draw, 0.3, "abort-style"):
+        c["abort_style"] = draw(st.sampled_from(["int", "obj", "none"]))
     h = p.get("handler", 0.3)
     if h and chance(draw, h, "s8"):
         c["handler"] = draw(
@@ -189,6 +193,19 @@ def retry_case(draw, p):
         case["jumps"] = draw(st.lists(st.sampled_from([0, 3600, -3600, 86400, -86400 * 365, 0.5]), min_size=1, max_size=6))
     if p.get("placements"):
         case["placement"] = draw(placement(p))
+    if chance(draw, p.get("falsy_callbacks", 0.15), "falsy-cb"):
+        pl = case.setdefault("placement", {})
+        pl["falsy"] = draw(
+            st.lists(
+                st.sampled_from(
+                    ["call.sleep", "call.sleeper", "call.before_sleep", "policy.sleep", "policy.sleeper", "policy.before_sleep",
+                     "call.on_metric", "call.on_log", "call.abort_if", "call.on_attempt_start", "call.on_attempt_end"]
+                ),
+                min_size=1,
+                max_size=4,
+                unique=True,
+            )
+        )
     return case
 
 
